@@ -4,7 +4,7 @@ CONSTANTS
   MaxLen = 6
   MaxTrials = 3
   MaxGens = 2
-  Fits = {1, 2}
+  Fits <- MixedFits
   Divs = {3}
 INVARIANTS SeriesLaws SeriesPermutationInvariant ExperLaws
 CHECK_DEADLOCK FALSE
